@@ -86,6 +86,12 @@ class RecCtl(ctl_sched.Ctl):
         super().__init__(*a, **k)
         self.done = []          # (job, "ok" | ("err", cls, msg))
 
+    def attach(self, sched):
+        # keep the event queue (and what is still queued in it) when re-attached to the same scheduler
+        if isinstance(getattr(sched, "events_queue", None), ctl_sched.CtlQueue) and sched.events_queue.ctl is self:
+            return sched
+        return super().attach(sched)
+
     def complete_next(self):
         job = self.inflight.pop(self.choose())
         self.completions.append(job)
